@@ -233,7 +233,7 @@ WEIGHTS = {
   'movepage': 2, 'displaycol': 5, 'displayfield': 4, 'cleardisplay': 3, 'addrule': 5, 'droprule': 3,
   'rmfield': 3, 'addfield': 2, 'customsection': 1, 'detach': 1, 'rmhelper': 1, 'rmtablerec': 1, 'rmcolrec': 2,
   'hiddencol': 1, 'linksection': 2, 'dupfield': 0,
-  'refsummary': 4, 'setvisible': 4, 'showcol': 4, 'rulecross': 1, 'rmlastwidget': 4,
+  'refsummary': 4, 'setvisible': 4, 'showcol': 4, 'rulecross': 1, 'rmlastwidget': 4, 'sumvisible': 4,
 }
 RAW_WRITES = ('linksection', 'addfield', 'dupfield', 'droprule', 'movepage', 'setvisible')
 
@@ -438,6 +438,13 @@ def make_gen(rng, weights=None):
         if not sc or not plain:
           return None
         return ['AddEmptyRule', r.choice(plain)['name'], 0, r.choice(sc)['id']]
+      if kind == 'sumvisible':
+        # a formula column of one summary table only, shown in its widgets: a later regrouping has to add it to
+        # the target table and move the fields
+        if not summ:
+          return None
+        return ['AddVisibleColumn', r.choice(summ)['name'], r.choice(['X', 'extra', 'total']),
+                {'isFormula': True, 'formula': r.choice(['1', 'len($group)', '2'])}]
       if kind == 'rmlastwidget':
         cand = []
         for t in summ:
@@ -780,6 +787,15 @@ def translate(a, P, Q, names, rgs=()):
            '_grist_Views_section': 'ORemoveSections', '_grist_Views_section_field': 'ORemoveFields',
            '_grist_TabBar': 'ORemoveTabs', '_grist_Pages': 'ORemovePages'}[a[1]]
     return (con, ids)
+  if name == 'AddVisibleColumn':
+    base = translate(['AddColumn'] + list(a[1:]), P, Q, names)
+    if base[0] != 'OAddColumn':
+      return UNMODELLED
+    t = T[a[1]]
+    cid = next_id([c['id'] for c in P['columns']])
+    std = set(x for x in (t['raw'], t['card']) if x)
+    secs = sorted(set(f['section'] for f in Q['fields'] if f['col'] == cid) - std)
+    return ('OAddVisibleColumn', base[1], base[2], base[3], secs)
   if name in ('AddColumn', 'AddHiddenColumn'):
     if a[1] not in T:
       return UNMODELLED
@@ -1206,6 +1222,35 @@ TARGETED += [
 ]
 
 
+# two summary tables of one source with DIFFERENT formula columns, the widgets show the extra columns; regrouping
+# merges one into the other (by UpdateSummaryViewSection, and by RemoveColumn of a group-by source):
+# _get_or_add_columns has to add the missing column to the target and the widget's field has to follow it
+MERGE_DOC = [[['AddTable', 'T', [{'id': 'A', 'type': 'Text'}, {'id': 'B', 'type': 'Text'}]]],
+             [['CreateViewSection', 1, 0, 'record', [2], None]]]           # T_summary_A: raw 4, page section 5
+TARGETED += [
+  MERGE_DOC + [[['AddColumn', 'T', 'D', {'type': 'Numeric', 'isFormula': False}]],
+               [['CreateViewSection', 1, 0, 'record', [2, 3], None]],     # T_summary_A_B with SUM(D): page section 7
+               [['UpdateSummaryViewSection', 7, [2]]]],
+  MERGE_DOC + [[['CreateViewSection', 1, 0, 'record', [2, 3], None]],
+               [['AddVisibleColumn', 'T_summary_A_B', 'X', {'isFormula': True, 'formula': '1'}]],
+               [['RemoveColumn', 'T', 'B']]],
+  MERGE_DOC + [[['CreateViewSection', 1, 0, 'record', [2, 3], None]],
+               [['AddVisibleColumn', 'T_summary_A_B', 'X', {'isFormula': True, 'formula': '1'}]],
+               [['UpdateSummaryViewSection', 7, [2]]]],
+  MERGE_DOC + [[['CreateViewSection', 1, 0, 'record', [2, 3], None], ['CreateViewSection', 1, 3, 'record', [2, 3], None]],
+               [['AddVisibleColumn', 'T_summary_A_B', 'X', {'isFormula': True, 'formula': '1'}]],
+               [['UpdateSummaryViewSection', 7, [2]]]],                    # the old table stays alive (section 8)
+  MERGE_DOC + [[['CreateViewSection', 1, 0, 'record', [2, 3], None]],
+               [['AddColumn', 'T_summary_A_B', 'X', {'isFormula': True, 'formula': '1'}]],
+               [['AddRecord', '_grist_Views_section_field', None, {'parentId': 7, 'colRef': 11}]],
+               [['RemoveColumn', 'T', 'B']]],
+  MERGE_DOC + [[['CreateViewSection', 1, 0, 'record', [2, 3], None]],
+               [['AddVisibleColumn', 'T_summary_A', 'X', {'isFormula': True, 'formula': '2'}],
+                ['AddVisibleColumn', 'T_summary_A_B', 'X', {'isFormula': True, 'formula': '1'}]],
+               [['UpdateSummaryViewSection', 7, [2]]]],                    # same name, other formula: a further column
+]
+
+
 def regroup_defects(r):
   """Which of the two known defects of update_summary_section calls occurred in this bundle."""
   out = set()
@@ -1216,6 +1261,20 @@ def regroup_defects(r):
     if any(t['raw'] == g['sec'] for t in g['pre']['tables']):
       direct = r['bundle'][g['action']][0] == 'UpdateSummaryViewSection'
       out.add('update-summary-raw-section' if direct else 'raw-section-regrouped')
+    # right after the call every field of the section must show a column of the section's new table
+    ps = [s for s in g['post']['sections'] if s['id'] == g['sec']]
+    if ps and len(cols) == len(set(cols)):
+      tcols = set(c['id'] for c in g['post']['columns'] if c['parent'] == ps[0]['table'])
+      pre_ids = set(c['id'] for c in g['pre']['columns'])
+      added = set(c['colId'] for c in g['post']['columns'] if c['id'] in tcols and c['id'] not in pre_ids)
+      cname = {c['id']: c['colId'] for c in g['post']['columns']}
+      for f in g['post']['fields']:
+        if f['section'] == g['sec'] and f['col'] not in tcols:
+          # the column was added to the target under the same id and the field still did not follow, or the
+          # target has a same-named column with another formula, so the copy got a new id (X -> X2) and
+          # update_summary_section, which matches fields and columns by id, does not move the field
+          out.add('field-left-behind' if cname.get(f['col']) in added or not added
+                  else 'renamed-column-field-left-behind')
   for k, a in enumerate(r['bundle']):
     if a[0] == 'DetachSummaryViewSection' and k < len(r['snaps']) and \
        any(t['raw'] == a[1] for t in r['snaps'][k]['tables']):
@@ -1228,7 +1287,8 @@ def classify(r, issues):
   defects = regroup_defects(r)
   if 'duplicate-field-regrouped' in defects:
     return 'duplicate-field-regrouped'
-  for k in ('raw-section-regrouped', 'update-summary-raw-section', 'detach-raw-section'):
+  for k in ('raw-section-regrouped', 'update-summary-raw-section', 'detach-raw-section', 'field-left-behind',
+            'renamed-column-field-left-behind'):
     if k in defects and all(i[0] in ('field.colRef', 'field.colRef-other-table', 'table.raw-of-other-table',
                                      'table.rawViewSectionRef') for i in issues):
       return k
@@ -1311,7 +1371,8 @@ def correspond(ctx):
   # the repaired defects must not occur in any successful bundle (each would also make the model reject or differ)
   for i, r in enumerate(recs):
     # duplicates are fine when all move; detaching a raw section is reported by the oracle (known finding)
-    for d in sorted(regroup_defects(r) - {'duplicate-field-regrouped', 'detach-raw-section'}):
+    for d in sorted(regroup_defects(r) - {'duplicate-field-regrouped', 'detach-raw-section',
+                                          'renamed-column-field-left-behind'}):
       ctx.broken('monitor:update_summary_section ran in a way the repaired code excludes (%s)' % d,
                  'history %s' % json.dumps(r['history'], default=repr))
   ctx.extra['bundles'] = len(recs)
